@@ -51,14 +51,17 @@ type bounds struct {
 func boundsFor(tier string) bounds {
 	if tier == "thorough" {
 		return bounds{ArgValues: 0, Amounts: amountSels, NTokens: len(tokenSels), CapCand: 8192, CapAcc: []int{8, 8, 8, 8, 40}, Encodings: []bool{true, true, true, true, true},
-			Bases: []string{"genesis", "entries", "matured"}, AllActors: true, Depth2: true, Depth2CapA: 2, Depth2CapB: 2, Weights: []int{3, 3, 5, 5, 12}}
+			Bases: []string{"genesis", "entries", "matured", "late-entries"}, AllActors: true, Depth2: true, Depth2CapA: 2, Depth2CapB: 2, Weights: []int{3, 3, 5, 5, 12}}
 	}
 	// quick: the method code is the same in every regime (only the table lookup and two liquidity branches read the spork
 	// flags), so the all-sporks regime gets the larger cap and the encodings
 	return bounds{ArgValues: 2, Amounts: amountSels[:2], NTokens: 2, CapCand: 256, CapAcc: []int{1, 1, 1, 1, 3}, Encodings: []bool{false, false, false, false, true},
-		Bases: []string{"genesis", "entries", "matured"}, Weights: []int{2, 2, 4, 4, 8},
+		Bases: []string{"genesis", "entries", "matured", "late-entries"}, Weights: []int{2, 2, 4, 4, 8},
 		BasesFor: func(ri int) []string {
-			if ri == 0 || ri == len(regimes)-1 {
+			if ri == 0 {
+				return []string{"genesis", "entries", "matured", "late-entries"}
+			}
+			if ri == len(regimes)-1 {
 				return []string{"genesis", "entries", "matured"}
 			}
 			return []string{"entries", "matured"}
@@ -202,6 +205,16 @@ func (w *worker) buildBases(need map[string]bool) {
 	}
 	w.r.Count("regimes_built", 1)
 	w.snaps["genesis"] = p.freeze("genesis", env)
+	if need["late-entries"] {
+		pl := w.snaps["genesis"].open(w.c.TempDir(), w.c.TempDir())
+		envL, msg := buildLate(pl, env)
+		if msg != "" {
+			fail("late-entries", msg)
+			pl.destroy()
+		} else {
+			w.snaps["late-entries"] = pl.freeze("late-entries", envL)
+		}
+	}
 	if !need["entries"] && !need["matured"] {
 		return
 	}
@@ -801,7 +814,7 @@ func replay(c *xs.Ctx, r *xs.Result) {
 	w.ri = id.Regime
 	w.nsub = 1
 	r.Count("replay_mode", 1)
-	w.buildBases(map[string]bool{id.Base: true, "entries": id.Base != "genesis", "matured": id.Base == "matured"})
+	w.buildBases(map[string]bool{id.Base: true, "entries": id.Base != "genesis" && id.Base != "late-entries", "matured": id.Base == "matured"})
 	s := w.snaps[id.Base]
 	if s == nil {
 		return
